@@ -227,6 +227,15 @@ pub fn run(run: &Run) {
         }
     });
 
+    super::pipe::stress(run, "alignment_and_runs", &["\u{5d0}", "\u{5d0}1", "\u{661}", "\u{5b8}", "\u{627}\u{661}", "1\u{5d0}", "-"], &|s, l| {
+        for p in profs {
+            if check(run, p, s, l).is_err() {
+                report(run, p, s);
+                return false;
+            }
+        }
+        true
+    });
     // (c) random
     let mk = || {
         let by = &crate::gens::pools().by_bidi16;
